@@ -64,6 +64,7 @@ type Result struct {
 	Skipped      []string            `json:"skipped,omitempty"`
 	HarnessErr   []string            `json:"harness_errors,omitempty"`
 	Info         map[string]any      `json:"info,omitempty"`
+	perKey       map[string]int
 }
 
 func NewResult() *Result {
@@ -139,7 +140,13 @@ func (r *Result) Violate(key, desc string, replay any) {
 	}
 	r.mu.Lock()
 	r.Counters["violations_total"]++
-	if len(r.Violations) < 400 {
+	// at most 3 stored per key, 400 per shard: thousands of occurrences of one class (a known
+	// finding reached by many histories, say) must not crowd out a violation of another class
+	if r.perKey == nil {
+		r.perKey = map[string]int{}
+	}
+	r.perKey[key]++
+	if r.perKey[key] <= 3 && len(r.Violations) < 400 {
 		r.Violations = append(r.Violations, Violation{Key: key, Desc: desc, Replay: raw})
 	}
 	r.mu.Unlock()
